@@ -174,6 +174,10 @@ def main(module_name: str) -> int:
         k = seed % len(items)
         items = items[k:] + items[:k]
     if args.only:
+        global EVIDENCE_DIR, REPLAY_DIR
+        if not os.environ.get("VERIF_OUT"):
+            # a partial run must never overwrite the evidence of the property
+            EVIDENCE_DIR, REPLAY_DIR = ROOT / ".tmp" / "partial" / "evidence", ROOT / ".tmp" / "partial" / "replays"
         items = [i for i in items if args.only in json.dumps(i, sort_keys=True)]
         print(f"--only: {len(items)} work items kept (a partial run: not evidence for the property)")
     budget = args.max_seconds or getattr(module, "BUDGET_S", {}).get(args.tier)
